@@ -198,7 +198,7 @@ def _get_frame_local_variables_data(frame, variables, exclude_variables):
         # keep the data clean.
         if variable.startswith('__'):
             continue
-        if variables and variable not in variables:
+        if variables is not None and variable not in variables:
             continue
         if exclude_variables and variable in exclude_variables:
             continue
